@@ -10,14 +10,14 @@ ID = "C21"
 LEVEL = "exploration"
 RULE = ("wasmgen bound: (T) every well-typed instruction tree of depth<=2 over MVP(+sign-ext,+sat-trunc) operators, loads/stores with "
         "align/offset variants, select/drop/global/local ops and constants over LEB/float boundaries [quick: one inner operator per tree; "
-        "thorough: also both operands inner], (K) every control skeleton of nesting<=2 (quick: <=1 plus depth 2 with void/i32 results) over "
+        "thorough: also both operands inner], (K) every control skeleton of nesting<=2 (quick: <=1 with all block types plus <=2 with void/i32 block types) over "
         "block/loop/if/if-else/br/br_if/br_table/return/call/call_indirect/unreachable with block types none/i32/f64, (S) module structure: "
         "imports x memory x data x table/elem x globals x start x locals x exports (quick: all single and pairwise deviations from a base; "
-        "thorough: also triples); each module in binary + 3 text styles; distinct non-trivial = distinct canonical binary image")
+        "thorough: also triples); functions are packed 6 (quick) / 8 (thorough) per module; each module in binary + 3 text styles; distinct non-trivial = distinct canonical binary image")
 ASSUMPTIONS = [
     "reference binary: own encoder in vf/gen/wasmgen.py; every reference binary is validated (compiled) by V8 before it is used",
     "reference engine: node v20 / V8 (no wabt or wasmtime in the sandbox); 'behaves like' = same results/traps on V3 argument vectors, same "
-    "exported globals and memory afterwards; NaN results compare as NaN",
+    "exported globals and memory afterwards, compared bit-exactly (same engine on both sides, so NaN payloads count)",
     "the WAT renderer is own code following the spec grammar (flat, folded, inline-abbreviation styles); no independent WAT parser is available, "
     "so text that ppci rejects is reported with the text for human inspection",
     "a NotImplementedError from ppci is counted as unsupported (unclassified), every other exception on a generated module is a violation",
